@@ -46,8 +46,9 @@ CHECKS["C05"] = dict(
 CHECKS["C04"] = dict(
     text="Symbolic checking: for every ENO3 face-kernel pair (classified from the IR) the increment given to a cell through a face plus the increment given to its neighbour through the same "
          "face is zero for all field/velocity values and all upwind sign patterns; telescoping sums of the forcing update, diffusion flux, Laplacian filters and the ENO3 advection step vanish "
-         "for compactly supported data with arbitrary velocity.",
-    technique="symbolic execution of the real flux/update kernels + z3 queries (ite-encoded upwind switches; grid sums)",
+         "for compactly supported data with arbitrary velocity; the real simulator time_step (2D/3D Navier-Stokes with forcing/filter/zone, passive transport) conserves the grid sum of every "
+         "vorticity component / the transported field for compactly supported vorticity and forcing and arbitrary velocity.",
+    technique="symbolic execution of the real flux/update kernels and of the real time_step + z3 queries (ite-encoded upwind switches; grid sums)",
     design="DESIGN.md section 5 C04")
 
 CHECKS["C16"] = dict(
